@@ -1,5 +1,6 @@
 mod a2lgen;
 mod c01;
+mod c03;
 mod c03lex;
 mod c12;
 mod c13;
@@ -52,6 +53,7 @@ fn main() {
     common::silence_panics();
     let report = match prop.as_str() {
         "C01" => c01::run(&args),
+        "C03" => c03::run(&args),
         "C03L" => c03lex::run(&args),
         "C12" => c12::run(&args),
         "C13" => c13::run(&args),
